@@ -106,6 +106,7 @@ type snapRec struct {
 	cfgIdx  uint64
 	content string
 	done    bool
+	damaged bool // made unreadable by the nemesis while the server was down
 	seq     int
 }
 
@@ -184,6 +185,17 @@ func (d *Disk) newest() *snapRec {
 	var best *snapRec
 	for _, s := range d.snaps {
 		if s.done && (best == nil || snapOlder(best, s)) {
+			best = s
+		}
+	}
+	return best
+}
+
+// newestUsable is the newest complete snapshot that still opens.
+func (d *Disk) newestUsable() *snapRec {
+	var best *snapRec
+	for _, s := range d.snaps {
+		if s.done && !s.damaged && (best == nil || snapOlder(best, s)) {
 			best = s
 		}
 	}
